@@ -280,6 +280,9 @@ JudgePosWithdraw(s, h, e, p) ==
        C09_no_active_owner_left_out |-> G(good /\ emerg /\ clean,
                                           LET gain(a) == BSub(p.bal[a][pp.lp], s.bal[a][pp.lp]) IN
                                           (\E a \in A \ {fc} : gain(a) # Z) => (\A a \in A \ {fc} : gain(a) # Z)),
+       \* with active farms and a penalty large enough for a unit per owner, the owners' part does not go elsewhere
+       C09_owners_share_when_active_farms_exist |-> G(good /\ emerg /\ clean /\ (A \ {fc}) # {} /\ F!SharePerOwner(penObs, Cardinality(A)) # Z,
+                                                      \E a \in A \ {fc} : BSub(p.bal[a][pp.lp], s.bal[a][pp.lp]) # Z),
        C09_accounted           |-> G(good /\ emerg, BLe(out, pp.amt) /\ BLe(pp.amt, BAdd(out, BNat(Cardinality(A))))),
        M_penalty_split_exact   |-> G(good /\ emerg, p.bal = ApplyT(s.bal, T)),
        C10_effect_next_epoch   |-> G(good /\ pp.open, NextEpochEffect(s, p, pp.owner, pp.lp) /\ HistOthersUnchanged(s, p, pp.owner, pp.lp, h)),
